@@ -81,17 +81,16 @@ class StepWise(base.Scalar):
     # Phase ending step is the step AFTER which the next phase will start.
     self._phase_ending_steps = phase_ending_steps
     self._phases = [base.make_scalar(p) for l, p in self.phases]
-    self._current_phase = 0
-    self._last_value = None
 
   def call(self, step: int) -> Any:
-    if self._current_phase < len(self.phases):
-      if self._current_phase > 0:
-        phase_step = step - (
-            self._phase_ending_steps[self._current_phase - 1] + 1)
-      else:
-        phase_step = step
-      self._last_value = self._phases[self._current_phase](phase_step)
-      if step == self._phase_ending_steps[self._current_phase]:
-        self._current_phase += 1
-    return self._last_value
+    # NOTE: the value is a function of `step` alone: a schedule can be asked
+    # for any step in any order (operators are not called at every step, and a
+    # recovered algorithm starts with fresh schedule objects).
+    ending_steps = self._phase_ending_steps
+    # After the last phase, keep using its last value.
+    step = max(0, min(step, ending_steps[-1]))
+    phase = 0
+    while phase < len(ending_steps) - 1 and step > ending_steps[phase]:
+      phase += 1
+    phase_start = ending_steps[phase - 1] + 1 if phase > 0 else 0
+    return self._phases[phase](step - phase_start)
